@@ -111,6 +111,12 @@ def gen_rule_seeds(sdir):
                "[\\d-z]", "\\/", "a\\.b", "[\\]]", "[\\x5d-\\xff]"]:
         texts.append(("rule t { strings: $a = /%s/ condition: $a }\n" % rx).encode())
         texts.append(("rule t { condition: \"abc\" matches /%s/ }\n" % rx).encode())
+    # regexps whose code size is around the 16-bit jump limit, with the large piece in every position that a jump
+    # has to cross: whatever the compiler accepts must scan (the in-target oracle scans accepted rules)
+    for n_ in (940, 1000):
+        big = "[ab]" * n_
+        for shape in ("x|%s", "%s|x", "y(%s)*x", "y(x|%s)", "(%s)?x", "(x|y|%s)"):
+            texts.append(("rule t { strings: $a = /%s/ condition: $a }\n" % (shape % big)).encode())
     for n_ in (10, 200, 900, 1000, 1100, 2000):
         texts.append(("include \"%s.yar\"\nrule t { condition: true }\n" % ("i" * n_)).encode())
         texts.append(("include \"../%s/x.yar\"\nrule t { condition: true }\n" % ("j" * n_)).encode())
